@@ -687,11 +687,13 @@ func shadowRun(id int, rng *rand.Rand) shadowRec {
 	rec.Panic = protect(func() { rt.Render(img, parts) })
 	// several lights, in both orders: the picture is the sum of the pictures under each light
 	rec.Sums = make([][]int, w*h)
+	var extraLights []model3d.Coord3D
 	if rec.Panic == "" {
 		la := rt.Lights[0]
 		lb := &render3d.PointLight{Origin: model3d.XYZ(float64(ev(7)), float64(ev(7)), -float64(3+rng.Intn(9))), Color: render3d.NewColor(1)}
 		lc := &render3d.PointLight{Origin: model3d.XYZ(float64(ev(7)), float64(ev(7)), float64(5+rng.Intn(9))), Color: render3d.NewColor(0.5)}
 		sets := [][]*render3d.PointLight{{la}, {lb, lc}, {la, lb, lc}, {lb, lc, la}}
+		extraLights = []model3d.Coord3D{la.Origin, lb.Origin, lc.Origin}
 		rec.Panic = protect(func() {
 			for k := 0; k < 8; k++ {
 				im := render3d.NewImage(w, h)
@@ -702,8 +704,10 @@ func shadowRun(id int, rng *rand.Rand) shadowRec {
 				}
 				for i, c := range im.Data {
 					v := int(math.Round(c.X * 1e6))
-					if c.X != c.Y || c.Y != c.Z || c.X < 0 || c.X > 4 || math.IsNaN(c.X) {
+					if c.X != c.Y || c.Y != c.Z || c.X < 0 || math.IsNaN(c.X) {
 						v = -1
+					} else if c.X > 1000 {
+						v = -2 // a light almost on the surface: too bright for the judge's integers, not decided
 					}
 					rec.Sums[i] = append(rec.Sums[i], v)
 				}
@@ -713,6 +717,11 @@ func shadowRun(id int, rng *rand.Rand) shadowRec {
 	for i := range rec.Sums {
 		if rec.Sums[i] == nil {
 			rec.Sums[i] = []int{}
+		}
+		for _, v := range rec.Sums[i] {
+			if v == -2 {
+				rec.Sums[i] = []int{0, 0, 0, 0, 0, 0, 0, 0}
+			}
 		}
 	}
 	caster := cam.Caster(w-1, h-1)
@@ -745,6 +754,16 @@ func shadowRun(id int, rng *rand.Rand) shadowRec {
 				q.Pix6 = -1
 			}
 			rec.Pts = append(rec.Pts, q)
+			// a light that sits exactly on the visible surface point (or inside the surface it lights): the
+			// direction to it has no length; such a pixel is not decided
+			if best >= 0 {
+				pt := ray.Origin.Add(ray.Direction.Scale(bc.Scale))
+				for _, l := range extraLights {
+					if l.Dist(pt) < 1e-9 {
+						rec.Sums[y*w+x] = []int{0, 0, 0, 0, 0, 0, 0, 0}
+					}
+				}
+			}
 		}
 	}
 	return rec
